@@ -108,6 +108,7 @@ def tokJ : Tok → Json
 
 def errJ : Err → Json
   | .outOfFuel => jstr "fuel"
+  | .budget => jstr "budget"
   | .tse s => jstr s!"TemplateSyntaxError:{s}"
   | .notRegistered => jstr "NotRegistered"
   | .keyError s => jstr s!"KeyError:{s}"
@@ -122,7 +123,7 @@ def evJ : Ev → Json
   | .inject i k => jarr [jstr "inject", jnat i, jstr (ofChars k)]
 
 def worldJ (w : World) : List (String × Json) :=
-  [("events", jarr (w.events.map evJ)), ("rc_leak", jnat w.rcLeak),
+  [("events", jarr (w.events.map evJ)), ("rc_leak", jnat w.rcLeak), ("steps", jnat w.steps),
    ("residue", Json.mkObj [
       ("component_context_cache", jnat w.ctxCache.length),
       ("component_renderer_cache", jnat w.rendererCache.length),
@@ -141,7 +142,8 @@ def envOf (j : Json) : Except String (Env × Nat) := do
     | _ => pure none
   let fuel := (getNat j "fuel").toOption.getD 100000
   let maxInst := (getNat j "maxinst").toOption.getD 150
-  pure ({ isolated := ← getBool j "isolated", lib, raiseAt, maxInst }, fuel)
+  let maxSteps := (getNat j "maxsteps").toOption.getD 30000
+  pure ({ isolated := ← getBool j "isolated", lib, raiseAt, maxInst, maxSteps }, fuel)
 
 
 def runEntry (env : Env) (fuel : Nat) (j : Json) (w : World) : Except String (Except Err (List Tok) × World) := do
